@@ -192,8 +192,16 @@ func HFocused() {
 	var segs []datamodel.PathSegment
 	var strs []string
 	for i := 0; i < n; i++ {
-		s := nd.String("seg", 1)
 		// list segments: digits, "-" (append) or non-numeric; negative numbers are outside the claim
+		if nd.Choose("segform", 2) == 1 {
+			// a segment made from an integer (as walks over lists make them): addresses list
+			// positions and map keys spelled as that number alike
+			d := nd.Choose("digit", 3)
+			strs = append(strs, string(rune('0'+d)))
+			segs = append(segs, datamodel.PathSegmentOfInt(int64(d)))
+			continue
+		}
+		s := nd.String("seg", 1)
 		strs = append(strs, s)
 		segs = append(segs, datamodel.PathSegmentOfString(s))
 	}
